@@ -16,6 +16,10 @@ R11.d  feature observers never use the single-machine accessor
 The heart of C11 - that each incremental feature value equals its
 from-scratch definition after every dispatch - is numerical and is NOT
 decided by this check.
+R11.f  no for-loop variable of these modules is read after its loop (a statement
+       left one indentation level too shallow sees only the last element).
+R11.g  no str-Enum value (FeatureType, ...Type) is tested by identity: plain strings
+       are accepted for these enums and are equal, not identical, to the member.
 """
 
 from __future__ import annotations
@@ -40,6 +44,8 @@ MANIFEST = {
         "flexible operations. The central clause - each incremental feature "
         "equals its from-scratch definition after every dispatch - is "
         "numerical and is NOT decided."
+        " Also decided: no for-loop variable of these modules is read after its loop (statement left one indentation level too shallow)."
+        " Also decided: no str-Enum value is tested by identity (plain strings are accepted for these enums)."
     ),
     "note": "Reset-time re-initialisation of each feature observer is C12's R12.a/R12.b.",
     "technique": "sibling-loop agreement + constructor path linearisation + registry table check + typed accessor lint",
@@ -54,6 +60,12 @@ ASSUMPTIONS = ["numpy.concatenate(axis=1) places blocks left to right in list or
 
 def run(ctx):
     chk, repo = ctx.chk, ctx.repo
+    from .common import check_str_enum_identity
+
+    check_str_enum_identity(ctx, "R11.g", ("job_shop_lib.dispatching.feature_observers", "job_shop_lib.reinforcement_learning"), "the feature-observer / environment")
+    from .common import check_loop_variable_leaks
+
+    check_loop_variable_leaks(ctx, "R11.f", ("job_shop_lib.dispatching.feature_observers",), "the feature-observer")
     for rid, txt in (
         ("R11.a", "composite: same observer order and nesting for features and column names; axis-1 concatenation; components read afresh each call"),
         ("R11.b", "observers whose update reads another observer acquired it before subscribing"),
